@@ -135,6 +135,55 @@ class Env:
             pass
         return r
 
+    def include_used(self, fmt, data, use):
+        self.n += 1
+        p = os.path.join(self.dir, "d%d.dat" % self.n)
+        u = os.path.join(self.dir, "u%d.ucg" % self.n)
+        with open(p, "wb") as f:
+            f.write(data)
+        with open(u, "w", encoding="utf-8") as f:
+            f.write('let v = include %s "%s";\nlet u = %s;\n' % (fmt, p, use))
+        r = self.probe.safe_call({"op": "build", "path": u, "strict": True, "reuse_max": 300})
+        for q in (p, u):
+            try:
+                os.remove(q)
+            except OSError:
+                pass
+        return r
+
+
+def use_of(dec):
+    """an expression that uses the included value `v` the way its decoded type is used, and the type's name"""
+    if isinstance(dec, bool):
+        return "v && true", "bool"
+    if isinstance(dec, int):
+        return "v + 1", "int"
+    if isinstance(dec, float):
+        return "v + 0.5", "float"
+    if isinstance(dec, str):
+        return "v + \"!\"", "str"
+    if isinstance(dec, list):
+        return "v + [1]", "list"
+    if isinstance(dec, dict):
+        return "v{zz_added = 1}", "tuple"
+    return "v == NULL", "null"
+
+
+def judge_use(env, fmt, data, dec, res, witness):
+    """the included value is built as a FILE (the type checker runs) and used according to its type"""
+    use, tn = use_of(dec)
+    r = env.include_used(fmt, data, use)
+    if "panic" in r or "crash" in r or "hang" in r or "inconclusive" in r:
+        res.count("crash-left-to-C04")
+        return
+    if not r.get("ok"):
+        # one class for documents whose top-level value is a scalar (the checker types every json / yaml / toml include as
+        # tuple-or-list, pinned by a unit test): the known finding; everything else is keyed on format and type
+        where = "scalar-document" if fmt in ("json", "yaml", "toml") and tn in ("bool", "int", "float", "str") else "%s:%s" % (fmt, tn)
+        res.violation(["included-value-rejected-when-used-as-its-type", where, cls(r.get("err", ""))[:60]], dict(witness, use=use, where=where), {"err": r.get("err", "")[:300]})
+        return
+    res.count("used-as-its-type:%s:%s" % (fmt, tn))
+
 
 def judge_doc(env, fmt, text, res, label):
     data = text.encode("utf-8", "surrogatepass") if isinstance(text, str) else text
@@ -193,6 +242,8 @@ def judge_doc(env, fmt, text, res, label):
         res.violation(["included-value-differs", fmt, k], witness, {"text": text_s[:400], "path": path, "decoder": repr(a)[:120], "ucg": repr(b)[:120]})
         return
     res.count("agree:" + fmt)
+    if env.n % 4 == 0:
+        judge_use(env, fmt, data, dec, res, witness)
 
 
 def cls(msg):
@@ -280,6 +331,8 @@ def task(args):
                         res.violation(["include-value-differs", fmt, kindf], witness, {"expected": exp[:100], "ucg": repr(got)[:100]})
                     else:
                         res.count("agree:" + fmt)
+                        if env.n % 3 == 0:
+                            judge_use(env, fmt, data, exp, res, witness)
             # unknown type / missing file
             for text in ['let v = include nosuch "%s";' % os.path.join(env.dir, "x"), 'let v = include json "%s";' % os.path.join(env.dir, "missing.json"),
                          'let v = include str "%s";' % os.path.join(env.dir, "missing.txt")]:
@@ -322,6 +375,12 @@ def check_witness(w):
     try:
         data = core.b64d(w["file_b64"])
         fmt = w["format"]
+        if w.get("use"):
+            # the value used according to its type in a built file
+            r = env.include_used(fmt, data, w["use"])
+            if not r.get("ok") and not ("panic" in r or "crash" in r or "hang" in r or "inconclusive" in r):
+                res.violation(["included-value-rejected-when-used-as-its-type", w.get("where", "replay"), cls(r.get("err", ""))[:60]], w, {"err": r.get("err", "")[:300]})
+            return res
         if fmt in ("json", "yaml", "toml"):
             judge_doc(env, fmt, data, res, "replay")
         else:
